@@ -155,6 +155,22 @@ def run_history(case, d, want_regen=True):
         ref = [np.asarray(v, dtype=dt) for v in vals]
     n = len(ref)
     steps = [observe(ra, path, ref, ['ok'], read_keys(n), iter_keys(n), want_regen=want_regen)]
+    held = []
+
+    def hold():
+        # the whole history runs with both subarrays held open (open_arrays() context on the live handle)
+        if case.get('heldopen'):
+            cm = ra.open_arrays()
+            cm.__enter__()
+            held.append(cm)
+
+    def unhold():
+        while held:
+            try:
+                held.pop().__exit__(None, None, None)
+            except Exception:
+                pass
+    hold()
     for op in case['ops']:
         k = op['op']
         extra = {}
@@ -227,15 +243,19 @@ def run_history(case, d, want_regen=True):
                 if len(new) < len(ref):
                     ref = new
             if op.get('bypath') and res[0] == 'ok':
+                unhold()
                 ra = darr.RaggedArray(path, accessmode=ra.accessmode)
+                hold()
         elif k == 'setmode':
             res = call(lambda: setattr(ra, 'accessmode', op['mode']))
         elif k == 'reopen':
+            unhold()
             try:
                 ra = darr.RaggedArray(path, accessmode=op['mode'])
                 res = ['ok']
             except Exception as e:
                 res = ['exc', type(e).__name__]
+            hold()
         elif k == 'metaset':
             res = call(lambda: ra.metadata.update(op['value']))
         elif k == 'metaop':
@@ -266,4 +286,5 @@ def run_history(case, d, want_regen=True):
         n = len(ref)
         steps.append(observe(ra, path, ref, res, read_keys(n), iter_keys(n), extra,
                              want_regen=want_regen))
+    unhold()
     return steps
